@@ -7,6 +7,7 @@ pub mod crash;
 pub mod fault;
 pub mod history;
 pub mod logfmt;
+pub mod owner;
 pub mod tablefmt;
 
 use crate::runner::*;
@@ -16,7 +17,7 @@ pub const HISTORY_IDS: &[&str] = &["C01", "C03", "C04", "C07", "C09", "C10", "C1
 
 pub fn all_ids() -> Vec<&'static str> {
     let mut v: Vec<&'static str> = HISTORY_IDS.to_vec();
-    v.extend(["C02", "C16", "C12", "C08", "C15", "C13", "C14", "C05", "C06"]);
+    v.extend(["C02", "C16", "C12", "C08", "C15", "C13", "C14", "C05", "C06", "C17"]);
     v.sort();
     v
 }
@@ -99,6 +100,12 @@ pub fn meta(id: &str) -> Option<CheckMeta> {
                 "holds end after a timeout because queued writers cannot finish while the head writer is held; the timeout affects coverage only".into(),
             ],
         }),
+        "C17" => Some(CheckMeta {
+            id: "C17",
+            level: "exploration",
+            rule: "on raindb's own TmpFileSystem (real files, real flock) 2-6 threads execute generated programs over Open / Close / Destroy / Write (through an owned handle) in 2-8 rounds; all operations of a round are released together by a barrier. A harness-side owner ledger judges every round: while a handle that is not being closed in that round is alive, every open and every destroy_database must fail; when nobody holds the database, at most one of the racing opens succeeds and (absent a racing destroy or close) exactly one does; after every round each owner reads back up to 40 acknowledged keys and writes a probe key (failed attempts do not disturb the running instance); at the end the database opens, holds every acknowledged key, refuses destroy while open and is destroyed after close. Non-trivial = a round with >=2 attempts against a live owner, opens racing with a close, or >=2 racing opens without an owner; distinct by case hash".into(),
+            assumptions: vec!["uses real files under the system temp directory (removed when the case ends)".into()],
+        }),
         "C12" => Some(CheckMeta {
             id: "C12",
             level: "exploration",
@@ -135,6 +142,7 @@ pub fn worker(ctx: &WorkerCtx) -> WorkerResult {
         "C15" => return corrupt::worker(ctx),
         "C05" => return conc::worker_c05(ctx),
         "C06" => return batch::worker(ctx),
+        "C17" => return owner::worker(ctx),
         "C13" | "C14" => return tablefmt::worker(ctx),
         _ => {}
     }
@@ -152,6 +160,7 @@ pub fn replay_value(v: &Value) -> Result<(), String> {
         "corruptpoint" => corrupt::replay(v),
         "conc" => conc::replay(v),
         "batch" => batch::replay(v),
+        "owner" => owner::replay(v),
         "tablefmt" | "filterpolicy" => tablefmt::replay(v),
         other => Err(format!("unknown replay engine {other:?}")),
     }
